@@ -357,11 +357,64 @@ def _names():
   return out
 
 
+TYPED = {"bool": [True, False, True], "int": [5, -3, 2], "float": [0.5, -2.25, 4.0],
+         "complex": [1 + 2j, -0.5j, 3 + 0j], "fraction": None}
+
+
+def h_typed(ctx, cfg):
+  """Concrete element types (bool, int, float, complex, exact rationals): the result is exactly what the element type's
+  own operator gives (catches type-specific special-casing that uninterpreted elements cannot see)."""
+  from fractions import Fraction
+  from audiolazy import Stream
+  ops = {op.name: op for op in _table()}
+  op = ops[cfg["op"]]
+  vals = TYPED[cfg["type"]] or [Fraction(1, 3), Fraction(-5, 2), Fraction(7)]
+  other = TYPED[cfg["other"]] or [Fraction(2, 7), Fraction(3), Fraction(-1, 4)]
+  if op.name == "rpow" and cfg["other"] == "fraction":
+    # Fraction.__pow__ itself converts the base to float before Python ever reaches Stream.__rpow__
+    # (`float(a) ** b` for a non-rational b): not something the Stream can influence
+    ctx.exclude("Fraction ** Stream is float(Fraction) ** Stream by Fraction's own rules")
+  n = ctx.split("len", 0, 3)
+  fn = getattr(operator, "__%s__" % op.name[op.rev:])
+  def elem(f, *a):
+    try: return ("ok", f(*a))
+    except Exception as e: return ("exc", type(e).__name__)
+  if op.arity == 1:
+    want = [elem(fn, v) for v in vals[:n]]
+    res = fn(Stream(list(vals[:n])))
+  elif op.rev:
+    if cfg["scalar"]:
+      want = [elem(fn, other[0], v) for v in vals[:n]]; res = fn(other[0], Stream(list(vals[:n])))
+    else:
+      want = [elem(fn, o, v) for o, v in zip(other, vals[:n])]; res = fn(list(other), Stream(list(vals[:n])))
+  else:
+    if cfg["scalar"]:
+      want = [elem(fn, v, other[0]) for v in vals[:n]]; res = fn(Stream(list(vals[:n])), other[0])
+    else:
+      want = [elem(fn, v, o) for v, o in zip(vals[:n], other)]; res = fn(Stream(list(vals[:n])), tuple(other))
+  got = []
+  it = iter(res)
+  for i in range(len(want)):
+    got.append(elem(next, it))
+  same_ = len(got) == len(want) and all(g[0] == w[0] and (g[1] == w[1] and type(g[1]) is type(w[1])) for g, w in zip(got, want))
+  ctx.prove(same_, "typed-elements:result-is-the-element-type's-own-operator", "%s %s/%s: got %r want %r" % (op.name, cfg["type"], cfg["other"], got, want))
+  if all(w[0] == "ok" for w in want):
+    ctx.prove(elem(next, it)[0] == "exc", "typed-elements:ends-with-the-operand")
+
+
 def tasks(tier, seed):
   big = tier == "thorough"
   N = 4 if big else 3
   T = []
   table = _table()
+  for op in table:
+    for ty in TYPED:
+      if op.arity == 1:
+        T.append(("h_typed", {"op": op.name, "type": ty, "other": ty, "scalar": False}))
+        continue
+      for oth in (ty, "int") if ty != "int" else ("int", "float"):
+        for sc in (False, True):
+          T.append(("h_typed", {"op": op.name, "type": ty, "other": oth, "scalar": sc}))
   for op in table:
     if op.arity == 1:
       for sk in ("stream", "periodic"):
